@@ -11,7 +11,10 @@ def parseDesc (t : String) : Desc :=
   | 'E' :: r => .echo (String.ofList r).toNat! true
   | ['f'] => .fail false
   | ['F'] => .fail true
-  | 's' :: r => .sub (String.ofList r).toNat!
+  | 's' :: r =>
+    match (String.ofList r).splitOn "p" with
+    | [n, p] => .sub n.toNat! p.toNat!
+    | _ => .sub (String.ofList r).toNat! 0
   | _ => .garbage
 
 def descTok : Desc → String
@@ -19,18 +22,19 @@ def descTok : Desc → String
   | .echo v true => "E" ++ toString v
   | .fail false => "f"
   | .fail true => "F"
-  | .sub n => "s" ++ toString n
+  | .sub n p => "s" ++ toString n ++ (if p = 0 then "" else "p" ++ toString p)
   | .garbage => "g"
 
 def tokStr : Tok → String
   | .R v => "V" ++ toString v ++ ":0"
   | .E => "E"
-  | .I v c => "V" ++ toString v ++ ":" ++ (if c then "1" else "0")
+  | .I v c => "V" ++ toString v ++ ":" ++ (match c with | some true => "1" | some false => "0" | none => "n")
 
 def parseTok (s : String) : Tok :=
   if s = "E" then .E else
   match (s.drop 1).toString.splitOn ":" with
-  | [v, "1"] => .I v.toNat! true
+  | [v, "1"] => .I v.toNat! (some true)
+  | [v, "n"] => .I v.toNat! none
   | [v, _] => .R v.toNat!
   | _ => .E
 
